@@ -308,6 +308,7 @@ def _frac(s):
 
 class Interp:
     def __init__(self, prog, oracle, lattice=False, hooks=None, max_steps=2000000, globals=None):
+        _COPY_PROG[0] = prog
         self.prog = prog
         self.oracle = oracle
         self.lattice = lattice          # symbolic inputs are integer-valued (C16): tolerances fold into sign atoms
@@ -641,6 +642,10 @@ class Interp:
                     break
         elif k == "CXXForRangeStmt":
             rng = self.ev(n["range"], env)
+            if isinstance(rng, MapVal):
+                rng = rng.snapshot()        # pairs (first, second); `second` objects are shared with the map
+            elif isinstance(rng, SetVal):
+                rng = Vec(sorted(rng.items, key=lambda x: (str(type(x)), x if not isinstance(x, Obj) else id(x))))
             if not isinstance(rng, Vec):
                 raise Unsupported("range-for over %r" % (rng,))
             var = n["var"]
@@ -1108,6 +1113,9 @@ class Interp:
             return v
         if cname.startswith("std::function"):
             return self.ev(args[0], env) if args else None
+        if cname.startswith("std::shared_ptr") or cname.startswith("std::__shared_ptr"):
+            # a shared_ptr is modelled as the pointee itself (None when empty): copies alias, as in C++
+            return self.ev(args[0], env) if args else None
         if cname.startswith("std::pair"):
             if n.get("copy") and args:
                 return copy.deepcopy(self.ev(args[0], env))
@@ -1405,6 +1413,24 @@ class Interp:
                 return recv.d[k]
             if meth == "count":
                 return 1 if self.ev(args[0], env) in recv.d else 0
+            if meth in ("insert", "emplace") and args:
+                # insert(pair) / emplace(k, v): keeps an existing mapping, as std::map does
+                if len(args) == 1:
+                    pr = self.ev(args[0], env)
+                    if isinstance(pr, Obj) and pr.cls == "std::pair":
+                        k_, v_ = pr.f.get("first"), pr.f.get("second")
+                    elif isinstance(pr, (list, tuple)) and len(pr) == 2:
+                        k_, v_ = pr
+                    else:
+                        raise Unsupported("std::map::insert argument %r" % (pr,))
+                else:
+                    k_, v_ = self.ev(args[0], env), self.ev(args[1], env)
+                if isinstance(k_, bool):
+                    k_ = int(k_)
+                if k_ not in recv.d:
+                    recv.d[k_] = v_
+                    recv.touch()
+                return None
             if meth in ("begin", "cbegin"):
                 return Iter(recv.snapshot(), 0)
             if meth in ("end", "cend"):
@@ -1449,7 +1475,14 @@ class Interp:
                 return not recv.items
             if meth == "size":
                 return len(recv.items)
+        if isinstance(recv, str):
+            if meth == "empty":
+                return recv == ""
+            if meth in ("size", "length"):
+                return len(recv)
         if isinstance(recv, StreamVal):
+            if meth == "empty":
+                return all(isinstance(t_, str) and t_ == "" for t_ in recv.tokens)
             if meth == "str":
                 return recv
             if meth in ("precision", "setf", "width"):
@@ -1459,6 +1492,16 @@ class Interp:
         raise Unsupported("std member %s on %r" % (cname, recv))
 
     def std_operator(self, n, op, cname, args, env, want_ref):
+        if "shared_ptr" in cname:
+            if op in ("->", "*"):
+                return self.ev(args[0], env)
+            if op in ("==", "!="):
+                a, b = self.ev(args[0], env), self.ev(args[1], env)
+                return (a is b) == (op == "==")
+            if op == "=":
+                ref = self.lv(args[0], env)
+                ref.set(self.ev(args[1], env))
+                return ref if want_ref else ref.get()
         is_iter_op = False
         if op in ("!=", "==", "<") and len(args) == 2 and ("iterator" in _strip(args[0]).get("t", "") or "iterator" in _strip(args[1]).get("t", "")):
             is_iter_op = True
@@ -1657,11 +1700,78 @@ def _is_ptr(t):
     return t.endswith("*")
 
 
+_COPY_PROG = [None]
+
+
+def _is_ptr_like(t):
+    t = (t or "").replace("const ", "").strip()
+    return _is_ptr(t) or t.startswith("std::shared_ptr<") or t.startswith("std::weak_ptr<") or t.startswith("std::unique_ptr<")
+
+
+def typed_copy(v, t, depth=0):
+    """Copy of a value of C++ type `t`: pointer-like members (raw pointers, smart pointers) alias their pointee, everything else is
+    copied member-wise.  Falls back to a deep copy where no type information is available."""
+    prog = _COPY_PROG[0]
+    if isinstance(v, Iter):
+        return Iter(v.v, v.i)
+    if _is_ptr_like(t) or depth > 40:
+        return v
+    if isinstance(v, Obj):
+        rec = prog.records.get(v.cls) if prog is not None else None
+        if v.cls == "std::pair":
+            o = Obj("std::pair")
+            tt = (t or "").replace("const std::pair", "std::pair")
+            t1 = _first_targ(tt) if tt.startswith("std::pair<") else None
+            t2 = _second_targ(tt) if tt.startswith("std::pair<") else None
+            for k_, v_ in v.f.items():
+                ft = t1 if k_ == "first" else (t2 if k_ == "second" else None)
+                o.f[k_] = typed_copy(v_, ft, depth + 1) if ft else copy.deepcopy(v_)
+            return o
+        if rec is None:
+            return copy.deepcopy(v)
+        ftypes = {}
+        cls = v.cls
+        seen = set()
+        stack = [cls]
+        while stack:
+            c_ = stack.pop()
+            if c_ in seen or c_ not in prog.records:
+                continue
+            seen.add(c_)
+            for f_ in prog.records[c_]["fields"]:
+                ftypes.setdefault(f_["name"], f_["t"])
+            stack.extend(prog.records[c_].get("bases", []))
+        o = Obj(v.cls)
+        for k_, v_ in v.f.items():
+            ft = ftypes.get(k_)
+            o.f[k_] = typed_copy(v_, ft, depth + 1) if ft is not None else copy.deepcopy(v_)
+        return o
+    if isinstance(v, Vec):
+        et = v.elem
+        if et is None and t:
+            et = _first_targ(t) if "<" in t else None
+        if et is None:
+            # unknown element type: alias element objects only if the container type says pointer
+            return copy.deepcopy(v)
+        nv = Vec([typed_copy(x, et, depth + 1) for x in v.items], v.elem)
+        return nv
+    if isinstance(v, MapVal):
+        vt = v.vtype
+        if vt is None:
+            return copy.deepcopy(v)
+        return MapVal({k_: typed_copy(x, vt, depth + 1) for k_, x in v.d.items()}, vtype=v.vtype)
+    if isinstance(v, (SetVal, Box, StreamVal, Opaque)):
+        return copy.deepcopy(v)
+    return v
+
+
 def vcopy(v, t):
     """Value semantics: copying an object value copies it; copying a pointer aliases."""
     if isinstance(v, Iter):
         return Iter(v.v, v.i)
-    if isinstance(v, (Obj, Vec)) and not _is_ptr(t):
+    if isinstance(v, (Obj, Vec)) and not _is_ptr_like(t):
+        if _COPY_PROG[0] is not None and t:
+            return typed_copy(v, t)
         return copy.deepcopy(v)
     return v
 
